@@ -447,7 +447,7 @@ impl Check for TreeProp {
                     s.planner.search_radius = s.planner.max_distance;
                 }
                 s.planner.goal_bias = bias;
-                let n = if bias > 0.0 && bias < 1.0 { 20_000 } else { 2_000 };
+                let n = if bias > 0.0 && bias < 1.0 { if s.planner.kind == PlannerKind::RRTStar { 6_000 } else { 20_000 } } else { 2_000 };
                 s.calls = vec![CallSpec::Setup { problem: 0 }, crate::checks::solve_budget(n)];
                 s.params.insert("bias_stats".into(), n as f64);
                 s.family = "goal_bias_stats".into();
@@ -487,12 +487,20 @@ impl Check for TreeProp {
             CallSpec::Solve { stalls, .. } => stalls.iter().filter(|s| s.at == Phase::Sample).map(|s| s.nth).max().unwrap_or(n).min(n).max(3),
             _ => 3 + rng.below(n - 2),
         };
+        let mut n = n;
         if deep {
             scn.params.insert("stepwise".into(), 1.0);
             if kind == PlannerKind::RRTStar {
                 scn.planner.max_distance = ext * rng.range(0.05, 0.2);
                 scn.planner.search_radius = scn.planner.max_distance * rng.range(1.5, 4.0);
                 scn.planner.goal_bias = 0.0;
+                // a tenth of them very deep: large trees in clutter, where a new node has many
+                // candidates of very different cost, some of them blocked
+                if rng.chance(if self.id == "C16" { 0.03 } else { 0.1 }) {
+                    let l = geo_for(&scn.space).unwrap().lvs();
+                    n = gen::affordable_iters_b(&scn.planner, l, ext, self.depth(tier) * 20, 6e6).max(n);
+                    scn.family = format!("very_deep/{}", scn.family);
+                }
             }
         }
         let solve_ci = scn.calls.iter().position(|c| matches!(c, CallSpec::Solve { .. })).unwrap();
@@ -753,9 +761,11 @@ impl TreeProp {
         Ok(())
     }
 
-    fn c15_step(&self, cx: &Ctx, px: &Prefix, i: usize, _lo: usize, hi: usize, rep: &mut Report) -> Result<(), Violation> {
+    fn c15_step(&self, cx: &Ctx, px: &Prefix, i: usize, lo: usize, hi: usize, rep: &mut Report) -> Result<(), Violation> {
         let g = &cx.ev.geo;
-        let acc = cx.ev.accepted(px.setup_ev, hi);
+        // the queries of this iteration normally suffice; only when they leave a gap are all
+        // queries accepted since the last setup consulted (any of them counts as validation)
+        let acc_iter = cx.ev.accepted(lo, hi);
         let b = cx.ev.step_bound();
         let n_trees = if matches!(px.snaps[i], Snap::Connect(..)) { 2 } else { 1 };
         for ti in 0..n_trees {
@@ -787,7 +797,8 @@ impl TreeProp {
                 if !(d <= b + cx.tol(b)) {
                     return Err(viol("C15", format!("C15/edge_too_long/{}", cx.pk), format!("iteration {}: edge {p}->{j} has length {d} > extension bound {b}", i + 1)));
                 }
-                if let Some((gap, at)) = cx.ev.coverage_gap(&acc, ps, &node.0) {
+                let gap = cx.ev.coverage_gap(&acc_iter, ps, &node.0).and_then(|_| cx.ev.coverage_gap(&cx.ev.accepted(px.setup_ev, hi), ps, &node.0));
+                if let Some((gap, at)) = gap {
                     return Err(viol(
                         "C15",
                         format!("C15/edge_not_validated/{}/{}", cx.pk, if reparented { "rewired" } else { "new" }),
